@@ -28,7 +28,7 @@ AGENT_HFILES = ["common/common_test.go.tmpl", "agent/cmesh_test.go", "agent/slee
 
 def consts(ctx):
     return ({"MaxCalls": 4, "MaxPolls": 3, "MaxRestarts": 1} if ctx.quick()
-            else {"MaxCalls": 6, "MaxPolls": 4, "MaxRestarts": 1})
+            else {"MaxCalls": 5, "MaxPolls": 4, "MaxRestarts": 1})
 
 
 def base_act(a):
